@@ -487,3 +487,30 @@ class run_stub_generator_wiring:
         return d[2] == out_dir_path and c[3] == out_dir_path and c[1] == gen and c[2] == d[3] \
             and gen.api == g[6] \
             and gen.naming_convention == (NamingConvention.SAFE_DS if convert_identifiers else NamingConvention.PYTHON)
+
+
+@contract(_CLI + "_get_args", props=["C15"], verify=False)
+class get_args_assumed:
+    """Assumed: the parsed command line (argparse) as a namespace; the option table itself is exercised by the
+    bounded CLI cases only through `_run_stub_generator`."""
+    modifies = []
+
+
+@contract(_CLI + "cli", props=["C15", "C14", "C10"])
+class cli_wiring:
+    """The command-line entry hands the parsed options to the run unchanged: -tr reaches is_test_run (C15), -nc the
+    naming switch, the resolved -s / -o paths the source and output directory (C10), preference and warning setting
+    their parameters (C14)."""
+    ghost = ["EXT"]
+    log_calls = ["_run_stub_generator"]
+    modifies = []
+    safety = False
+
+    def ensures_options_handed_over(result):
+        a = CALLS(EXT, "_get_args")[0][1]
+        r = CALLS(EXT, "_run_stub_generator")[0]
+        res = CALLS(EXT, "pathlib.Path.resolve")
+        return len(CALLS(EXT, "_run_stub_generator")) == 1 and len(res) == 2 \
+            and res[0][1] == a.src and r[1] == res[0][2] and res[1][1] == a.out and r[2] == res[1][2] \
+            and r[3] == a.docstyle and r[4] == a.testrun and r[5] == a.naming_convert \
+            and r[6] == a.type_source_preference and r[7] == a.show_type_source_warning
